@@ -253,7 +253,8 @@ pub fn run(args: &[String]) {
                 let reqs = case["reqs"].as_array().unwrap();
                 let big = mbytes.len() > 100_000;
                 for mode in ["mem", "sock"] {
-                    if mode == "sock" && !thorough && w % 4 != 0 && !big {
+                    // (deeply nested values always go through the real server too: its workers run on their own stacks)
+                    if mode == "sock" && !thorough && w % 4 != 0 && !big && !mname.contains(":nest") {
                         continue;
                     }
                     let salt = format!("w{}{}", w, &mode[..1]);
